@@ -245,7 +245,7 @@ func checkC10(c *hx.Checker) {
 			info := hx.CaseInfo{ID: fmt.Sprintf("sweep/%s/%s/%s", k.op, k.dt, cl), Tags: []string{"op=" + k.op, "dtype=" + k.dt.String(), "class=" + cl, "sweep"},
 				NonTrivial: st.count[cl] > 0 || st.failed[cl], Sample: map[string]any{"op": k.op, "dtype": k.dt.String(), "class": cl, "elements": st.count[cl]}}
 			if !st.failed[cl] {
-				c.Record(info, "ok:sweep", nil)
+				c.Note(info, "ok:sweep", nil)
 				continue
 			}
 			x := &ref.T{DT: k.dt, Shape: []int{1}, V: []uint64{st.failX[cl]}}
